@@ -25,9 +25,11 @@ Definition Asg (n : Z) (e : expr) : expr := EAsg (Z.to_nat n) e.
 Definition Cmp (op n : Z) (e : expr) : expr := ECmp op (Z.to_nat n) e.
 Definition Inc (pre dec : bool) (n : Z) : expr := EInc pre dec (Z.to_nat n).
 Definition Lg (k : Z) (e : expr) : expr := ELog k e.
+Definition SetM (id which : Z) (m : meth) : expr := ESetM id which m.
 
 Inductive case :=
-| CExpr (vs : list value) (e : expr) (status : Z) (r : oval) (vars : list oval) (lg : list Z)
+| CExpr (ps : list value) (vs : list value) (e : expr) (status : Z) (r : oval) (vars : list oval) (lg : list Z)
+    (* ps: the objects that serve as prototypes, vs: initial a, b, c *)
 | CIntStr (n : Z) (obs : list Z).   (* ToString of a number value that otto holds as a Go integer *)
 
 (* finding classes, attributed by switching otto's deviations on one after the other:
@@ -37,48 +39,49 @@ Inductive case :=
    4 string < on UTF-8 bytes instead of UTF-16 units
    5 a + b reads b after ToPrimitive(a)
    6 (x op= e read x after evaluating e: repaired in /repo by commit 3657e0a, class no longer produced)
-   7 ToString of a number held as a Go integer prints every integer digit *)
+   7 ToString of a number held as a Go integer prints every integer digit
+   8 instanceof with a bound function on the right does not use the target's [[HasInstance]] *)
 Definition overaccept (s : list Z) : numlit :=
   match string_to_number s with NLNaN => model_str2num s | r => r end.
 
 Definition h1 : dialect := {|
   d_int32 := m_to_int32; d_uint32 := m_to_uint32; d_uint16 := m_to_uint16; d_integer := m_to_integer; d_div := m_divide;
   d_str2num := string_to_number; d_strlt := units_lt;
-  d_plus_late := false; d_cmp_late := false; d_otto_cmp := true |}.
+  d_plus_late := false; d_cmp_late := false; d_otto_cmp := true; d_bound_own := false |}.
 Definition h2 : dialect := {|
   d_int32 := m_to_int32; d_uint32 := m_to_uint32; d_uint16 := m_to_uint16; d_integer := m_to_integer; d_div := m_divide;
   d_str2num := overaccept; d_strlt := units_lt;
-  d_plus_late := false; d_cmp_late := false; d_otto_cmp := true |}.
+  d_plus_late := false; d_cmp_late := false; d_otto_cmp := true; d_bound_own := false |}.
 Definition h3 : dialect := {|
   d_int32 := m_to_int32; d_uint32 := m_to_uint32; d_uint16 := m_to_uint16; d_integer := m_to_integer; d_div := m_divide;
   d_str2num := model_str2num; d_strlt := units_lt;
-  d_plus_late := false; d_cmp_late := false; d_otto_cmp := true |}.
+  d_plus_late := false; d_cmp_late := false; d_otto_cmp := true; d_bound_own := false |}.
 Definition h4 : dialect := {|
   d_int32 := m_to_int32; d_uint32 := m_to_uint32; d_uint16 := m_to_uint16; d_integer := m_to_integer; d_div := m_divide;
   d_str2num := model_str2num; d_strlt := m_str_lt;
-  d_plus_late := false; d_cmp_late := false; d_otto_cmp := true |}.
+  d_plus_late := false; d_cmp_late := false; d_otto_cmp := true; d_bound_own := false |}.
 Definition h5 : dialect := {|
   d_int32 := m_to_int32; d_uint32 := m_to_uint32; d_uint16 := m_to_uint16; d_integer := m_to_integer; d_div := m_divide;
   d_str2num := model_str2num; d_strlt := m_str_lt;
-  d_plus_late := true; d_cmp_late := false; d_otto_cmp := true |}.
+  d_plus_late := true; d_cmp_late := false; d_otto_cmp := true; d_bound_own := false |}.
 
 Definition oobs_eqb := option_eqb obs_eqb.
 
-Definition class_of (vs : list value) (e : expr) : Z :=
-  let s := run spec_d vs e in
-  if negb (oobs_eqb (run h1 vs e) s) then 1
-  else if negb (oobs_eqb (run h2 vs e) s) then 2
-  else if negb (oobs_eqb (run h3 vs e) s) then 3
-  else if negb (oobs_eqb (run h4 vs e) s) then 4
-  else if negb (oobs_eqb (run h5 vs e) s) then 5
-  else 6.
+Definition class_of (ps vs : list value) (e : expr) : Z :=
+  let s := run spec_d ps vs e in
+  if negb (oobs_eqb (run h1 ps vs e) s) then 1
+  else if negb (oobs_eqb (run h2 ps vs e) s) then 2
+  else if negb (oobs_eqb (run h3 ps vs e) s) then 3
+  else if negb (oobs_eqb (run h4 ps vs e) s) then 4
+  else if negb (oobs_eqb (run h5 ps vs e) s) then 5
+  else 8.
 
 Definition verdict (c : case) : Z * Z :=
   match c with
-  | CExpr vs e st r vars lg =>
-      match run model_d vs e, run spec_d vs e with
+  | CExpr ps vs e st r vars lg =>
+      match run model_d ps vs e, run spec_d ps vs e with
       | Some m, Some s =>
-          judge obs_eqb (st, r, vars, lg) m s (if obs_eqb m s then 0 else class_of vs e)
+          judge obs_eqb (st, r, vars, lg) m s (if obs_eqb m s then 0 else class_of ps vs e)
       | _, _ => declined
       end
   | CIntStr n obs =>
